@@ -14,6 +14,33 @@ pub open spec fn part_post(o: VolatileState, n: VolatileState, me: String, cs: S
             ((#[trigger] n.channels@.contains_key(c)) <==> o.channels@.contains_key(c)) && (o.channels@.contains_key(c) ==> n.channels@[c] == o.channels@[c]))
     &&& (forall|c: String| #[trigger] parted(o, me, cs, c) ==> post_chan(o.channels@, n.channels@, c, me))
 }
+// ---- the announcement of a PART (C04: "announced to all members of the channel, the departing user included") ----
+#[verifier::opaque]
+pub open spec fn part_line(src: Seq<char>, channel: Seq<char>, reason: Option<&str>) -> Seq<char> {
+    seq![':'] + src + seq![' '] + (if reason is Some { "PART "@ + channel + " :"@ + reason->0@ } else { "PART "@ + channel })
+}
+pub proof fn lemma_part_line(src: Seq<char>, channel: &&str, reason: Option<&str>, msg: &str)
+    requires reason is Some ==> msg@ == "PART "@ + dv::<&&&str>(&channel) + " :"@ + dv::<&&str>(&(reason->0)),
+             reason is None ==> msg@ == "PART "@ + dv::<&&&str>(&channel),
+    ensures disp::<&str>(src, msg) == part_line(src, channel@, reason),
+{
+    broadcast use display_text;
+    reveal(part_line);
+    assert(dv::<&&&str>(&channel) == channel@);
+    if reason is Some { assert(dv::<&&str>(&(reason->0)) == (reason->0)@); }
+}
+// step k of the channel list: if the user is (still) on that channel every member, the leaver included, gets the PART line once; else nobody gets anything
+pub open spec fn part_announce_step(o: VolatileState, me: String, cs: Seq<&str>, k: int, src: Seq<char>, reason: Option<&str>,
+        before: Seq<(int, Seq<char>)>, after: Seq<(int, Seq<char>)>) -> bool {
+    let c = sk(cs[k]);
+    if member(o, me, c) && !parted(o, me, cs.take(k), c) {
+        delivered_to_members(before, after, o, o.channels@[c].users@.dom(), part_line(src, cs[k]@, reason))
+    } else { after == before }
+}
+pub open spec fn part_announced(o: VolatileState, me: String, cs: Seq<&str>, n: int, src: Seq<char>, reason: Option<&str>, logs: Seq<Seq<(int, Seq<char>)>>) -> bool {
+    &&& logs.len() == n + 1
+    &&& forall|k: int| 0 <= k < n ==> #[trigger] part_announce_step(o, me, cs, k, src, reason, logs[k], logs[k + 1])
+}
 // leaving one channel keeps the state well formed (proved via the KICK lemma)
 pub proof fn lemma_leave_wf(a: VolatileState, b: VolatileState, c: String, nick: String)
     requires state_wf(a), rufc_step(a, b, c, nick), member(a, nick, c), a.users@.contains_key(nick)
@@ -161,7 +188,7 @@ impl MainState {
 }
 
 impl MainState {
-//@fn state/channel_cmds.rs MainState::process_part unit=partmode props=C04,C05,C16 rules=R1,R2,R6,R14
+//@fn state/channel_cmds.rs MainState::process_part unit=partmode props=C04,C05,C16 rules=R1,R2,R6,R14,R23
 //@attr #[verifier::loop_isolation(false)]
 //@ascribe removed_from Vec<bool>
 //@spec
@@ -169,6 +196,11 @@ impl MainState {
         ensures
             conn_same_but_stream(*final(conn_state), *old(conn_state)), // @prop C04
             r is Ok ==> part_post(*old(state), *final(state), my_nick(*old(conn_state)), channels@), // @prop C04,C16
+            // every departure is announced to all members of that channel, the leaver included, one copy each; nothing else is sent
+            r is Ok ==> exists|logs: Seq<Seq<(int, Seq<char>)>>|
+                #![trigger part_announced(*old(state), my_nick(*old(conn_state)), channels@, channels@.len() as int, old(conn_state).user_state.source@, reason, logs)]
+                part_announced(*old(state), my_nick(*old(conn_state)), channels@, channels@.len() as int, old(conn_state).user_state.source@, reason, logs)
+                && logs[0] == old(outbox).log && logs[channels@.len() as int] == final(outbox).log, // @prop C04
             sym(*final(state)), // @prop C04,C05
             chans_wf(*final(state)), // @prop C04,C08
             no_empty_chan(*final(state)), // @prop C16
@@ -181,8 +213,13 @@ impl MainState {
         let ghost o = *old(state);
         let ghost me = my_nick(*conn_state);
         let ghost cs = channels@;
+        let ghost src = conn_state.user_state.source@;
+        let ghost mut logs: Seq<Seq<(int, Seq<char>)>> = seq![outbox.log];
 //@loop ~for channel in channels\.iter\(\) iter=it1
                 invariant
+                    src == old(conn_state).user_state.source@,
+                    part_announced(o, me, cs, it1.index@ as int, src, reason, logs), // @prop C04
+                    logs[0] == old(outbox).log, logs[it1.index@ as int] == outbox.log, // @prop C04
                     conn_same_but_stream(*conn_state, *old(conn_state)), // @prop C04
                     it1.seq().len() == cs.len(),
                     forall|k: int| 0 <= k < it1.seq().len() ==> it1.seq()[k] == &cs[k],
@@ -194,6 +231,8 @@ impl MainState {
                 let ghost k = it1.index@ as int;
                 let ghost pre = *state;
                 let ghost ck = sk(cs[k]);
+                let ghost log_a = outbox.log;
+                let ghost mut order: Seq<String> = Seq::empty();
                 proof {
                     assert(channel == &cs[k]);
                     assert forall|n: VolatileState| #![trigger state_wf(n)] #![trigger sym(n)] #![trigger chans_wf(n)] #![trigger no_empty_chan(n)] #![trigger wallops_wf(n)] #![trigger counters_wf(n)] #![trigger senders_distinct(n)]
@@ -208,6 +247,20 @@ impl MainState {
                     }
                 }
 //@endloop ~for channel in channels\.iter\(\)
+                proof {
+                    // the announcement step of this channel name
+                    assert(part_announce_step(o, me, cs, k, src, reason, log_a, outbox.log)) by { // @prop C04
+                        if !(pre.channels@.contains_key(ck) && pre.channels@[ck].users@.contains_key(me)) {
+                            assert(outbox.log == log_a);
+                            if member(o, me, ck) && !parted(o, me, cs.take(k), ck) { assert(pre.channels@[ck] == o.channels@[ck]); assert(false); }
+                        }
+                    }
+                    let logs0 = logs;
+                    logs = logs0.push(outbox.log);
+                    assert forall|q: int| 0 <= q < k + 1 implies #[trigger] part_announce_step(o, me, cs, q, src, reason, logs[q], logs[q + 1]) by {
+                        if q < k { assert(part_announce_step(o, me, cs, q, src, reason, logs0[q], logs0[q + 1])); }
+                    }
+                }
                 proof {
                     let c0 = cs.take(k); let c1 = cs.take(k + 1);
                     assert forall|c: String| listed_ch(c1, c) <==> (listed_ch(c0, c) || c == ck) by {
@@ -242,14 +295,59 @@ impl MainState {
                     }
                     assert(part_post(o, *state, me, c1));
                 }
+//@before ~for nick in chanobj\.users\.keys\(\)
+                    let ghost line = part_line(src, cs[k]@, reason);
+                    proof {
+                        assert(reason is Some ==> part_msg@ == "PART "@ + dv::<&&&str>(&channel) + " :"@ + dv::<&&str>(&(reason->0))) by { // @prop C04,C13
+                            reveal(fmt2_text); reveal_strlit(""); assert(""@ =~= Seq::<char>::empty());
+                            if reason is Some { assert(part_msg@ =~= "PART "@ + dv::<&&&str>(&channel) + " :"@ + dv::<&&str>(&(reason->0))); } // @prop C04,C13
+                        }
+                        assert(reason is None ==> part_msg@ == "PART "@ + dv::<&&&str>(&channel)) by { // @prop C04,C13
+                            reveal(fmt1_text); reveal_strlit(""); assert(""@ =~= Seq::<char>::empty());
+                            if reason is None { assert(part_msg@ =~= "PART "@ + dv::<&&&str>(&channel)); } // @prop C04,C13
+                        }
+                        lemma_part_line(src, channel, reason, str_of(part_msg@));
+                        assert(channel@ == cs[k]@);
+                    }
 //@loop ~for nick in chanobj\.users\.keys\(\) iter=it2
                         invariant
                             state.users@ == pre.users@, state_wf(pre),
                             pre.channels@.contains_key(ck), chanobj.users@ == pre.channels@[ck].users@,
                             it2.seq().no_duplicates(), it2.seq().len() == chanobj.users@.dom().len(),
                             forall|q: String| chanobj.users@.dom().contains(q) ==> exists|i: int| 0 <= i < it2.seq().len() && *#[trigger] it2.seq()[i] == q,
+                            order.len() == it2.index@,
+                            order.no_duplicates(),
+                            forall|a: int, l: int| #![trigger order[a], it2.seq()[l]] 0 <= a < order.len() && order.len() <= l < it2.seq().len() ==> order[a] != *it2.seq()[l],
+                            forall|i: int| 0 <= i < order.len() ==> chanobj.users@.dom().contains(#[trigger] order[i]),
+                            forall|a: int| 0 <= a < it2.index@ ==> order[a] == *#[trigger] it2.seq()[a],
+                            line == disp::<&str>(src, str_of(part_msg@)),
+                            outbox.log == log_a + order.map_values(|n: String| (pre.users@[n].sender.id(), line)), // @prop C04
 //@after ~for nick in chanobj\.users\.keys\(\)
                         proof { assert(chanobj.users@.dom().contains(*nick)); assert(member(pre, *nick, ck)); }
+//@endloop ~for nick in chanobj\.users\.keys\(\)
+                        proof {
+                            assert forall|a: int| 0 <= a < order.len() implies order[a] != *nick by { }
+                            let f = |n: String| (pre.users@[n].sender.id(), line);
+                            assert(order.push(*nick).map_values(f) =~= order.map_values(f).push(f(*nick)));
+                            order = order.push(*nick);
+                        }
+//@afterloop ~for nick in chanobj\.users\.keys\(\)
+                    proof {
+                        assert(order.len() == chanobj.users@.dom().len());
+                        lemma_nodup_subset_full(order, chanobj.users@.dom());
+                        // same members and the same queues as in the state the command started from
+                        assert(member(pre, me, ck));
+                        assert(!parted(o, me, cs.take(k), ck)) by { if parted(o, me, cs.take(k), ck) { assert(post_chan(o.channels@, pre.channels@, ck, me)); } }
+                        assert(pre.channels@[ck] == o.channels@[ck]);
+                        let f_pre = |n: String| (pre.users@[n].sender.id(), line);
+                        let f_o = |n: String| (o.users@[n].sender.id(), line);
+                        assert(order.map_values(f_pre) =~= order.map_values(f_o)) by {
+                            assert forall|i: int| 0 <= i < order.len() implies f_pre(order[i]) == f_o(order[i]) by {
+                                assert(member(o, order[i], ck)); assert(o.users@.contains_key(order[i]));
+                            }
+                        }
+                        assert(delivered_to_members(log_a, outbox.log, o, o.channels@[ck].users@.dom(), line));
+                    }
 //@afterloop ~for channel in channels\.iter\(\)
         let ghost aft = *state;
         proof { assert(cs.take(cs.len() as int) =~= cs); }
